@@ -4,6 +4,8 @@ worlds the all-schedules theorems quantify over (`SStar`, `XStar`, …) contain 
 user submits local inputs, remote inputs arrive and `advance_frame` advances several times in a row.
 -/
 import GgrsModel.Proofs.World
+import GgrsModel.Proofs.Lockstep
+import GgrsModel.Proofs.DropWorld
 import GgrsModel.Proofs.Pair
 import GgrsModel.Proofs.HostSpec
 
@@ -196,5 +198,132 @@ theorem demo_hostspec_run (t : TLState) :
             ⟨((([] : List (List Input)).length : Nat) : Int), [5, 9].getD h 0⟩) g1)
   have p4 := HSStar.step _ _ _ p3 (HSStep.specAdvance (demoH2, _) demoSpec1 demoSpec2 [[5, 9]] 0 _ g2)
   exact ⟨_, _, p4, by decide⟩
+
+/-! ### a concrete run with a game -/
+
+/-- The first call of a session: `advance_frame_core` saves frame 0 before anything else. -/
+def demoSave0 : SyncLayer × Request := getOk ((demoSession.addLocalInput 0 5).1.sync.saveCurrentState)
+def demoW1r : Except String (P2P × List Request) :=
+  ({ (demoSession.addLocalInput 0 5).1 with sync := demoSave0.1 } : P2P).advanceRollbackFrame 0 [demoSave0.2]
+def demoW1 : P2P := (getOk demoW1r).1.userExecute (demoSaves (getOk demoW1r))
+def demoW1in : P2P := getOk (demoW1.handleEventCore 0 (.input ⟨0, 9⟩ 1) [1] 1)
+def demoW2r : Except String (P2P × List Request) := (demoW1in.addLocalInput 0 6).1.advanceRollbackFrame 0 []
+def demoW2 : P2P := (getOk demoW2r).1.userExecute (demoSaves (getOk demoW2r))
+
+theorem demo_okW0 : isOk ((demoSession.addLocalInput 0 5).1.sync.saveCurrentState) = true := by decide
+theorem demo_okW1 : isOk demoW1r = true := by decide
+theorem demo_okW1in : isOk (demoW1.handleEventCore 0 (.input ⟨0, 9⟩ 1) [1] 1) = true := by decide
+theorem demo_okW2 : isOk demoW2r = true := by decide
+theorem demo_frameW2 : demoW2.sync.currentFrame = 2 := by decide
+/-- the first call starts with the save of frame 0, the second one rolls back (it loads frame 0) -/
+theorem demo_reqsW : (getOk demoW1r).2.head? = some (.save 0) ∧
+    (getOk demoW2r).2.any (fun r => match r with | .load 0 => true | _ => false) = true := by decide
+
+/-- A session next to a game (any game): local input, first call (with its save of frame 0), the
+remote input that contradicts the prediction, local input, a call that rolls back — a path of the
+world with a game, every save reaching its cell. -/
+theorem demo_world_run {G : Type} (step : G → List (Input × InputStatus) → G) (x : GS G) :
+    ∃ x', WStar step (demoSession, x) (demoW2, x') := by
+  have e0 := ok_of_isOk _ demo_okW0
+  have e1 := ok_of_isOk _ demo_okW1
+  have e1i := ok_of_isOk _ demo_okW1in
+  have e2 := ok_of_isOk _ demo_okW2
+  have hs : ∀ r : P2P × List Request, (demoSaves r).map (·.1) = savedFrames r.2 := by
+    intro r; unfold demoSaves
+    rw [List.map_map]
+    have : ((fun x : Frame × Option Nat => x.1) ∘ fun f => (f, none)) = id := rfl
+    rw [this, List.map_id]
+  have p1 := WStar.step (step := step) _ _ _ (WStar.step (step := step) _ _ _ (WStar.refl (step := step) (demoSession, x))
+      (WStep.localInput (step := step) demoSession x 0 5))
+      (WStep.tick0 (step := step) (demoSession.addLocalInput 0 5).1 (getOk demoW1r).1 x 0 demoSave0.1 demoSave0.2 (getOk demoW1r).2
+        (demoSaves (getOk demoW1r)) (by decide) e0 e1 (hs _))
+  have p2 := WStar.step (step := step) _ _ _ p1 (WStep.remoteInput (step := step) demoW1 demoW1in _ 0 ⟨0, 9⟩ 1 [1] 1 (by decide) (by decide) e1i)
+  have p3 := WStar.step (step := step) _ _ _ (WStar.step (step := step) _ _ _ p2 (WStep.localInput (step := step) demoW1in _ 0 6))
+      (WStep.tick (step := step) (demoW1in.addLocalInput 0 6).1 (getOk demoW2r).1 _ 0 (getOk demoW2r).2 (demoSaves (getOk demoW2r)) e2 (hs _))
+  exact ⟨_, p3⟩
+
+/-! ### a concrete lockstep run, and a run with a drop -/
+
+/-- `demoSession` in lockstep mode (prediction window 0). -/
+def demoLk : P2P := { demoSession with maxPrediction := 0, sync := SyncLayer.new 2 0 }
+def lkTick (s : P2P) (v : Input) : Except String (P2P × List Request) :=
+  (s.addLocalInput 0 v).1.advanceLockstepFrame 0 []
+/-- stalls: the remote input of frame 0 is missing -/
+def demoLk1 : P2P := (getOk (lkTick demoLk 5)).1
+def demoLk1r : P2P := getOk (demoLk1.handleEventCore 0 (.input ⟨0, 9⟩ 1) [1] 1)
+def demoLk2 : P2P := (getOk (lkTick demoLk1r 5)).1
+
+theorem demo_okLk1 : isOk (lkTick demoLk 5) = true := by decide
+theorem demo_okLk1r : isOk (demoLk1.handleEventCore 0 (.input ⟨0, 9⟩ 1) [1] 1) = true := by decide
+theorem demo_okLk2 : isOk (lkTick demoLk1r 5) = true := by decide
+theorem demo_lk_facts : (getOk (lkTick demoLk 5)).2 = [] ∧ demoLk1.sync.currentFrame = 0 ∧
+    (getOk (lkTick demoLk1r 5)).2 = [.advance [(5, .confirmed), (9, .confirmed)]] ∧ demoLk2.sync.currentFrame = 1 := by
+  decide
+
+theorem demo_lockstep_run (t : TLState) : ∃ t', LkStar (demoLk, t) (demoLk2, t') := by
+  have e1 := ok_of_isOk _ demo_okLk1
+  have e1r := ok_of_isOk _ demo_okLk1r
+  have e2 := ok_of_isOk _ demo_okLk2
+  have p1 := LkStar.step _ _ _ (LkStar.step _ _ _ (LkStar.refl (demoLk, t)) (LkStep.localInput demoLk t 0 5))
+      (LkStep.tick _ demoLk1 t 0 (getOk (lkTick demoLk 5)).2 e1)
+  have p2 := LkStar.step _ _ _ p1 (LkStep.remoteInput demoLk1 demoLk1r _ 0 ⟨0, 9⟩ 1 [1] 1 (by decide) (by decide) e1r)
+  have p3 := LkStar.step _ _ _ (LkStar.step _ _ _ p2 (LkStep.localInput demoLk1r _ 0 5))
+      (LkStep.tick _ demoLk2 _ 0 (getOk (lkTick demoLk1r 5)).2 e2)
+  exact ⟨_, p3⟩
+
+/-- `demoSession` with an endpoint for the remote player, so that it can be dropped. -/
+def demoDropEp : Endpoint := { Endpoint.new [1] 1 2 1 8 2000 500 60 none 55 0 with handles := [1], state := .running }
+def demoD0 : P2P := { demoSession with remotes := [(1, demoDropEp)] }
+def dTick (s : P2P) (v : Input) : Except String (P2P × List Request) :=
+  (s.addLocalInput 0 v).1.advanceRollbackFrame 0 []
+def demoD1 : P2P := ((getOk (dTick demoD0 5)).1).userExecute (demoSaves (getOk (dTick demoD0 5)))
+def demoD2 : P2P := ((getOk (dTick demoD1 6)).1).userExecute (demoSaves (getOk (dTick demoD1 6)))
+/-- the user drops the remote player, whose input never arrived: frames 0 and 1 were predicted -/
+def demoD3 : P2P := (getOk (demoD2.disconnectPlayer 0 1)).1
+/-- this call re-simulates frames 0 and 1 with the player marked Disconnected -/
+def demoD4r : Except String (P2P × List Request) := dTick demoD3 7
+
+theorem demo_okD1 : isOk (dTick demoD0 5) = true := by decide
+theorem demo_okD2 : isOk (dTick demoD1 6) = true := by decide
+theorem demo_okD3 : isOk (demoD2.disconnectPlayer 0 1) = true := by decide
+theorem demo_okD3' : (getOk (demoD2.disconnectPlayer 0 1)).2 = .ok () := by decide
+theorem demo_okD4 : isOk demoD4r = true := by decide
+theorem demo_drop_facts : (getOk demoD4r).2.any (fun r => match r with | .load 0 => true | _ => false) = true ∧
+    (getOk demoD4r).2.getLast? = some (.advance [(7, .confirmed), (0, .disconnected)]) := by decide
+
+def demoD4 : P2P := (getOk demoD4r).1
+def demoD2ep : Endpoint := (P2P.findEp demoD2.remotes 1).getD demoDropEp
+
+theorem some_getD_of_isSome {α} (o : Option α) (d : α) (h : o.isSome = true) : o = some (o.getD d) := by
+  cases o with
+  | none => cases h
+  | some a => rfl
+
+/-- Two calls with the remote player's input missing (predicted), an accepted `disconnect_player`,
+and the call that re-simulates both frames with the player marked Disconnected: a path of the world
+with drops. -/
+theorem demo_drop_run (t : TLState) : ∃ t', XStar (demoD0, t) (demoD4, t') := by
+  have e1 := ok_of_isOk _ demo_okD1
+  have e2 := ok_of_isOk _ demo_okD2
+  have e3 := ok_of_isOk _ demo_okD3
+  have e4 := ok_of_isOk _ demo_okD4
+  have e3' : demoD2.disconnectPlayer 0 1 = .ok (demoD3, .ok ()) := by
+    rw [e3]
+    have : getOk (demoD2.disconnectPlayer 0 1) = (demoD3, (getOk (demoD2.disconnectPlayer 0 1)).2) := rfl
+    rw [this, demo_okD3']
+  have p1 := XStar.step _ _ _ (XStar.step _ _ _ (XStar.step _ _ _ (XStar.refl (demoD0, t))
+      (XStep.localInput demoD0 t 0 5))
+      (XStep.tick _ (getOk (dTick demoD0 5)).1 t 0 (getOk (dTick demoD0 5)).2 e1))
+      (XStep.saves (getOk (dTick demoD0 5)).1 _ (demoSaves (getOk (dTick demoD0 5))))
+  have p2 := XStar.step _ _ _ (XStar.step _ _ _ (XStar.step _ _ _ p1
+      (XStep.localInput demoD1 _ 0 6))
+      (XStep.tick _ (getOk (dTick demoD1 6)).1 _ 0 (getOk (dTick demoD1 6)).2 e2))
+      (XStep.saves (getOk (dTick demoD1 6)).1 _ (demoSaves (getOk (dTick demoD1 6))))
+  have p3 := XStar.step _ _ _ p2 (XStep.dropApi demoD2 demoD3 _ 0 1 1 demoD2ep (by decide)
+      (some_getD_of_isSome (P2P.findEp demoD2.remotes 1) demoDropEp (by decide)) (by decide)
+      (by decide) (by decide) (by decide) e3')
+  have p4 := XStar.step _ _ _ (XStar.step _ _ _ p3 (XStep.localInput demoD3 _ 0 7))
+      (XStep.tick _ demoD4 _ 0 (getOk demoD4r).2 e4)
+  exact ⟨_, p4⟩
 
 end Ggrs
